@@ -133,6 +133,9 @@ func (p c15) Run(c *core.Ctx) {
 		switch r.PickW(50, 25, 25) {
 		case 0:
 			in, class = gen.HostileMarkup(r), "hostile"
+			if c.Thorough() && r.Chance(1, 4) {
+				in = gen.HostileMarkupN(r, 40, 256) // longer assemblies in the thorough tier
+			}
 		case 1:
 			in, class = gen.Truncation(r), "truncation"
 		default:
